@@ -3,6 +3,7 @@ package main
 import (
 	"fmt"
 	"go/token"
+	"go/types"
 
 	"golang.org/x/tools/go/ssa"
 )
@@ -241,6 +242,84 @@ func runC02(c *Ctx) {
 			c.Check(len(vT) == 1 && assigned(0)(vT[0]), fk(f, "key-assigned"), r, "with an assignment the consumer key is the assigned key; found "+describeAll(vT))
 			c.Check(len(vF) == 1 && own(vF[0]), fk(f, "key-default"), r, "without an assignment the key is the validator's own provider key; found "+describeAll(vF))
 		}
+	}
+
+	// ---- R7 ------------------------------------------------------------------------------------
+	c.Rule("R7", "active-set restriction applies to the filter's INPUT: when inactive validators are not allowed, FilterValidators receives bonded[:MaxProviderConsensusValidators] (truncation before eligibility), otherwise the full bonded list", 3)
+	if f := c.Fn("pk.Keeper.ComputeNextValidators"); f != nil {
+		if fl := c.one(f, false, "pk.Keeper.FilterValidators"); fl != nil {
+			allow := ABool("AllowInactiveVals", PField(PParam("powerShapingParameters"), "AllowInactiveVals"))
+			tooMany := Atom{"len(bonded) > max", cmpAtom(func(op token.Token, x, y ssa.Value) (bool, bool) {
+				isLen := func(v ssa.Value) bool {
+					cl, ok := strip(v).(*ssa.Call)
+					return ok && isCallTo(cl, "builtin.len")
+				}
+				isMax := PCall("pk.Keeper.GetMaxProviderConsensusValidators", -1, nil)
+				switch {
+				case op == token.GTR && isLen(x) && isMax(y), op == token.LSS && isMax(x) && isLen(y):
+					return true, true
+				case op == token.LEQ && isLen(x) && isMax(y), op == token.GEQ && isMax(x) && isLen(y):
+					return true, false
+				}
+				return false, false
+			})}
+			in := arg(fl, 2)
+			vT := valuesUnder(in, f, F(allow), T(tooMany))
+			okT := len(vT) == 1
+			if okT {
+				sl, isS := vT[0].(*ssa.Slice)
+				okT = isS && sl.Low == nil && sl.High != nil && PCall("pk.Keeper.GetMaxProviderConsensusValidators", -1, nil)(sl.High) && allRoots(sl.X, PParam("bondedValidators"), func(v ssa.Value) bool { _, s := v.(*ssa.Slice); return s })
+			}
+			c.Check(okT, fk(f, "filter-input-truncated-when-inactive-disallowed"), fl, "with AllowInactiveVals=false and more bonded validators than M the filter sees bondedValidators[:M]; found "+describeAll(vT))
+			vA := valuesUnder(in, f, T(allow))
+			c.Check(len(vA) == 1 && PParam("bondedValidators")(vA[0]), fk(f, "filter-input-full-when-inactive-allowed"), fl, "with AllowInactiveVals=true the filter sees all bonded validators; found "+describeAll(vA))
+			c.Check(len(ifsTesting(f, allow.Fn)) == 1 && len(ifsTesting(f, tooMany.Fn)) == 1, fk(f, "truncation-tests"), f, "one AllowInactiveVals test and one length test")
+		}
+	}
+
+	// ---- R8 ------------------------------------------------------------------------------------
+	c.Rule("R8", "list indexes follow the stored parameters: SetConsumerPowerShapingParameters refreshes allowlist/denylist/prioritylist indexes whenever the stored list differs; each UpdateXlist first deletes the whole index of the consumer on every path and then sets one entry per address of the new list", 12)
+	if f := c.Fn("pk.Keeper.SetConsumerPowerShapingParameters"); f != nil {
+		old := PCall("pk.Keeper.GetConsumerPowerShapingParameters", 0, nil, nil, PParam("consumerId"))
+		for _, l := range []struct{ field, upd string }{{"Allowlist", "pk.Keeper.UpdateAllowlist"}, {"Denylist", "pk.Keeper.UpdateDenylist"}, {"Prioritylist", "pk.Keeper.UpdatePrioritylist"}} {
+			u := c.one(f, false, l.upd)
+			if u == nil {
+				continue
+			}
+			same := ABool("stored "+l.field+" equals new", PCall("pk.equalStringSlices", -1, nil, PField(old, l.field), PField(PParam("parameters"), l.field)))
+			c.Check(PParam("consumerId")(arg(u, 1)) && PField(PParam("parameters"), l.field)(arg(u, 2)), fk(f, "refresh-args", l.field), u, "Update"+l.field+"(consumerId, parameters."+l.field+")")
+			for _, r := range successReturns(f) {
+				c.MustPassWhen(r, []ssa.Instruction{u}, fk(f, "refresh-when-changed", l.field), F(same))
+			}
+		}
+	}
+	for _, l := range []struct{ upd, del, set string }{
+		{"pk.Keeper.UpdateAllowlist", "pk.Keeper.DeleteAllowlist", "pk.Keeper.SetAllowlist"},
+		{"pk.Keeper.UpdateDenylist", "pk.Keeper.DeleteDenylist", "pk.Keeper.SetDenylist"},
+		{"pk.Keeper.UpdatePrioritylist", "pk.Keeper.DeletePrioritylist", "pk.Keeper.SetPrioritylist"},
+	} {
+		f := c.Fn(l.upd)
+		if f == nil {
+			continue
+		}
+		d := c.one(f, false, l.del)
+		st := c.one(f, false, l.set)
+		if d == nil || st == nil {
+			continue
+		}
+		for _, r := range Returns(f) {
+			c.Check(mustPassBefore(r, d), fk(f, "index-cleared-on-every-path"), r, "every return passes "+shortName(q(l.del))+" (an empty new list clears the index)")
+		}
+		c.Check(PParam("consumerId")(arg(d, 1)) && PParam("consumerId")(arg(st, 1)), fk(f, "same-consumer"), st, "clears and sets for the consumerId parameter")
+		var listParam Pat
+		for _, p := range f.Params {
+			if _, isSlice := p.Type().Underlying().(*types.Slice); isSlice {
+				listParam = PParam(p.Name())
+			}
+		}
+		okSet := listParam != nil && inLoop(st) && PCall("pt.NewProviderConsAddress", -1, nil, PCall("sdk.ConsAddressFromBech32", 0, nil, PElemOf(listParam)))(arg(st, 2))
+		c.Check(okSet, fk(f, "one-entry-per-address"), st, "sets one index entry per address of the new list; found "+describe(arg(st, 2)))
+		c.Check(mustPassBefore(st, d), fk(f, "clear-before-set"), st, "the index is cleared before it is rebuilt")
 	}
 
 	// ---- R6 ------------------------------------------------------------------------------------
